@@ -641,6 +641,11 @@ func TestRun(t *testing.T) {
 					return
 				}
 				sc := all[i]
+				if rec.NViolations() > 12 {
+					// every order that does not reach the model's state costs its full settle time: enough witnesses
+					rec.Count("event_orders_skipped_after_violations", 1)
+					continue
+				}
 				runScenario(rec, sc)
 				rec.Eval(fmt.Sprintf("%d|%d|%v|%v", sc.Total, sc.Ep, sc.Path, sc.Evs))
 				rec.Count("event_orders_driven", 1)
@@ -658,6 +663,9 @@ func TestRun(t *testing.T) {
 	}
 	wg.Wait()
 
+	if rec.NViolations() > 12 {
+		return
+	}
 	stress(rec, seed)
 	rec.Assume("reference limiter: per-path counter + FIFO, total limit as a FIFO semaphore; release order on return = total slot first, then the endpoint slot (passes to the head waiter)")
 }
